@@ -66,21 +66,22 @@ ASSUMPTIONS = ["float regime: the implementations are compared with the exact Ra
                "all points have the dimension of the reference point; 1..12 points; no NaN/inf",
                "the proof covers the specification hvCells/hvSlice (= Lebesgue measure of the union of boxes in every "
                "dimension) and the two wrappers; pyhv's algorithm is transcribed (Core/HvSweep.lean) and proved to terminate "
-               "in every dimension and to be correct for d <= 2, for d >= 3 its equality with hvCells is validated by the "
+               "in every dimension and to be correct for d <= 3, for d >= 4 its equality with hvCells is validated by the "
                "correspondence run (value and internal state), not proved; the C extension (_hv.c, variant 4 with AVL tree) "
                "is validated against hvSlice only"]
 EXPLANATION = ("The ALGORITHM of pyhv (preProcess, hvRecursive with bounds pruning / ignore marking / remove / reinsert) is "
                "transcribed in Core/HvSweep.lean and diffed on every hypervolume case against pyhv's value AND its observable "
                "final state (hvRecursive calls per dimIndex, node order of every dimension list, ignore flags, area and volume "
                "caches, bounds — read by wrapping Node.__init__/hvRecursive in the harness process) and against hvSlice; proved: "
-               "termination in every dimension with the lists restored, correctness for d <= 2 (sweep_1d, sweep_2d), the slab "
-               "decomposition that the general step implements (all d); open: sweep_eq_hvCells_Statement for d >= 3. "
+               "termination in every dimension with the lists restored, correctness for d <= 3 (sweep_1d, sweep_2d, sweep_3d — the "
+               "last through the general case), coordinate symmetry and the slab decomposition that the general step implements "
+               "(all d, leading and last coordinate); open: sweep_eq_hvCells_Statement for d >= 4 (reuse of cached areas/volumes "
+               "below bounds, ignore marks). "
                "Theorems C15.* : hvCells = Lebesgue measure of the union of boxes (all dimensions), hvSlice = hvCells "
                "(discrete Fubini), invariances, 1-D/2-D formulas, indicator_least, population_hv. Both implementations are "
                "diffed against hvSlice on exactly representable inputs; an inclusion-exclusion oracle checks them independently.")
 
 KNOWN_ID = "pyhv-tied-coordinates"
-KNOWN_SEQ_ID = "pyhv-sequence-zero-reference"
 
 # ----------------------------------------------------------------------------------------------
 # the compiled extension, rebuilt per run
@@ -979,31 +980,6 @@ def exhaustive(tier, rng):
                     yield {"k": "hv", "mode": "exh-ref%s" % r, "ref": [r] * dim, "pts": [list(p) for p in s]}
 
 
-_SEQ_ZERO = {}
-
-
-def seq_zero_allowed():
-    """The sub-family 'pyhv called with list/tuple points and an all-zero reference' currently fails (see
-    `seq_zero_ref_finding`).  It is generated when the finding is listed in known_findings.json (then it is reported as
-    KNOWN-FINDING) or when the defect is gone (then it simply passes); otherwise it is left out and a PENDING-FINDING
-    line says so — the coordinator decides between fixing /repo and listing the finding."""
-    if "ok" not in _SEQ_ZERO:
-        listed = KNOWN_SEQ_ID in set(k.get("id") for k in lib.load_known("C15"))
-        fixed = True
-        try:
-            with warnings.catch_warnings():
-                warnings.simplefilter("ignore")
-                pyhv.hypervolume(((0.0,), (0.0,)), (0.0,))
-        except TypeError:
-            fixed = False
-        _SEQ_ZERO["ok"] = listed or fixed
-        if not _SEQ_ZERO["ok"]:
-            print("PENDING-FINDING: property=C15 %s: pyhv.hypervolume(((0.,),(0.,)), (0.,)) raises TypeError "
-                  "('bool' object is not iterable): list/tuple points with an all-zero reference and a tied coordinate; "
-                  "this sub-family is not generated until the finding is fixed in /repo or listed" % KNOWN_SEQ_ID)
-    return _SEQ_ZERO["ok"]
-
-
 def conv_cases(rng, count):
     """calling conventions: small integer point sets (ties, duplicates, boundary), reference zero (points <= 0) or not"""
     for _ in range(count):
@@ -1024,12 +1000,8 @@ def conv_cases(rng, count):
             ref = [0] * dim if zero else [n + 1] * dim
         base = {"k": "conv", "ref": [str(x) for x in ref], "pts": [[str(x) for x in p] for p in pts]}
         form = rng.choice(FORMS)
-        zero = all(x == 0 for x in ref)
         for target in ("py", "c"):
-            f = form
-            if target == "py" and zero and form in ("list", "tuple", "list-arrayref") and not seq_zero_allowed():
-                f = "floatarray"
-            yield dict(base, form=f, target=target)
+            yield dict(base, form=form, target=target)
         if rng.random() < 0.5:
             w = [rng.choice(["1", "-1"]) for _ in range(dim)]
             form2 = rng.choice(["list", "tuple", "intarray", "floatarray"])
@@ -1205,33 +1177,12 @@ def f7_construct_present():
     return _F7_MARK
 
 
-def seq_zero_ref_finding(desc, msg):
-    """Finding reported with this delivery (not yet decided by the coordinator): with an all-zero reference point
-    pyhv does not translate — and since F23 no longer converts — the points, so plain list / tuple points stay
-    sequences; as soon as two points share a coordinate value `decorated.sort()` compares two Node objects and
-    `Node.__lt__` = `all(self.cargo < other.cargo)` raises TypeError ('bool' object is not iterable).
-    Key: pyhv called directly, points given as list/tuple, reference all zeros, a tied coordinate value."""
-    if desc.get("k") != "conv" or desc.get("target") != "py" or desc.get("form") not in ("list", "tuple", "list-arrayref"):
-        return False
-    if not msg.startswith("pyhv-only: pyhv.hypervolume raised TypeError: 'bool' object is not iterable"):
-        return False
-    try:
-        pts, ref = [frs(p) for p in desc["pts"]], frs(desc["ref"])
-    except Exception:  # noqa
-        return False
-    if any(x != 0 for x in ref):
-        return False
-    return any(len(set(p[j] for p in pts)) < len(pts) for j in range(len(ref)))
-
-
 def classify(desc, msg, known):
     """Known finding F7: the pure-Python fallback is wrong when coordinates are tied (two points share a value in
     some dimension, or a point shares one with the reference point, i.e. lies on the boundary) in dimension >= 4
     (its `ignore` marks are never consulted below that).  Anything else — in particular any deviation of the compiled
     extension, of pyhv on tie-free input or in d <= 3, or of a pyhv that no longer contains the defective construct —
     is a violation."""
-    if seq_zero_ref_finding(desc, msg):
-        return KNOWN_SEQ_ID
     if not msg.startswith("pyhv-only") or not f7_construct_present():
         return None
     try:
